@@ -26,6 +26,8 @@ namespace AIToolbox::Factored::Bandit {
             // completely eliminated (their final factors are out of the graph).
             double finalMax = 0.0, finalMin = 0.0;
             bool isFinal = false;
+            // Actions of the agent being eliminated for which no rule applied.
+            std::vector<size_t> unmentionedActions;
 
             void beginRemoval(const GVE::Graph &, const GVE::Graph::FactorItList &, const GVE::Graph::Variables &, size_t);
             void initNewFactor();
@@ -108,6 +110,12 @@ namespace AIToolbox::Factored::Bandit {
                     currMin = std::min(currMin, entry.v[1]);
                 }
             }
+            // A factor with unmentioned local joint actions may also
+            // contribute nothing at all.
+            if (it->getData().size() < factorSpacePartial(it->getVariables(), A)) {
+                currMax = std::max(currMax, 0.0);
+                currMin = std::min(currMin, 0.0);
+            }
             if (isAgentFactor) {
                 if (currMax > 0.0) x_u += currMax;
                 continue;
@@ -120,6 +128,7 @@ namespace AIToolbox::Factored::Bandit {
 
     void Global::initNewFactor() {
         newFactor.clear();
+        unmentionedActions.clear();
     }
 
     void Global::beginCrossSum(size_t currAction) {
@@ -199,10 +208,19 @@ namespace AIToolbox::Factored::Bandit {
                 std::make_move_iterator(std::begin(newCrossSum)),
                 std::make_move_iterator(std::end(newCrossSum))
             );
+        } else {
+            unmentionedActions.push_back(agentAction);
         }
     }
 
     bool Global::isValidNewFactor() {
+        // An action that no rule mentions is worth zero (as in
+        // VariableElimination), and must compete with the mentioned ones. If
+        // no action is mentioned the agent does not matter here, and we emit
+        // nothing as before.
+        if (newFactor.size() > 0)
+            for (const auto a : unmentionedActions)
+                newFactor.push_back(UCVE::Entry{UCVE::V::Zero(), PartialAction{{agent}, {a}}});
         if (isFinal && newFactor.size() > 0) {
             // This factor leaves the graph: remember its variance range for
             // the bounds of the components still to be eliminated.
